@@ -90,6 +90,8 @@ def run(ctx: Ctx, rs: RuleSet, tier: str):
     flips = [n for n in g.nodes()
              if common.guard_write_value(ctx, g, n, f, guard) is not None and
              not common._in_finally(f, g.stmt[n])]
+    all_writes = [n for n in g.nodes()
+                  if common.guard_write_value(ctx, g, n, f, guard) is not None]
     tests = []
     saved = set()  # locals holding a read of the flag
     for s in walk_function(f.node):
@@ -116,7 +118,9 @@ def run(ctx: Ctx, rs: RuleSet, tier: str):
       rej = [m for m, lab in g.succ[t] if lab == rej_label]
       # the rejecting branch never reaches the normal exit nor a flip
       r = g.reach(rej, labels=cfg_lib.NO_EXC)
-      rejects = (g.exit not in r and not any(x in r for x in flips) and
+      # the rejecting branch leaves without touching the flag at all: a
+      # rejected nested build must not clear the outer build's flag either
+      rejects = (g.exit not in r and not any(x in r for x in all_writes) and
                  g.raise_exit in r)
       # every flip is reached only through the test's go branch
       dominated = all(
@@ -332,9 +336,17 @@ def _proxy_shape(ctx: Ctx, rs: RuleSet):
           if isinstance(t, ast.Attribute) and isinstance(
               t.value, ast.Name) and t.value.id == init.params[0]:
             base_attr = t.attr
-  rs.check(base_attr is not None, rule, f'{pc.qualname}:__init__',
-           f'first constructor argument stored as self.{base_attr}',
-           ctx.loc(mk, pc.node))
+  init_calls = [c for c in walk_function(init.node)
+                if isinstance(c, ast.Call)] if init is not None else []
+  rs.check(base_attr is not None and not init_calls, rule,
+           f'{pc.qualname}:__init__',
+           f'the proxy constructor only stores its arguments '
+           f'(self.{base_attr} = ...)' if not init_calls else
+           f'the proxy constructor calls `{unparse(init_calls[0])[:60]}`: '
+           'running the wrapped class\'s initialiser with other arguments can '
+           'raise for classes with custom __init__ signatures, which silently '
+           'drops the Fiddle context through the fallback',
+           ctx.loc(mk, init.node if init is not None else pc.node))
   ok = False
   d = '__str__ missing'
   if strm is not None:
